@@ -117,7 +117,7 @@ def doc(desc, original, s):
                     breach.update(range(i, i + w))
         return dict(score=-total, breach=breach, region=True)
     if k in ("cds", "stop"):
-        a, b, st = desc["location"]
+        a, b, st = loc_of(desc, len(s))
         if st not in (1, -1):
             st = 1
         sub = s[a:b] if st == 1 else rc(s[a:b])
